@@ -14,13 +14,13 @@ import random
 
 from core import Report, Work, run_tlc, use_repo, seed, MachineryError
 
-KINDS = ['num', 'str', 'boolT', 'boolF', 'uri', 'ref', 'date', 'time', 'dt', 'qty']
+KINDS = ['num', 'str', 'boolT', 'boolF', 'uri', 'ref', 'date', 'time', 'dt', 'qty', 'inf']
 KIDX = {k: i + 1 for i, k in enumerate(KINDS)}
 SPELL = {'num': '5', 'str': '"m"', 'boolT': 'true', 'boolF': 'false', 'uri': '`m`', 'ref': '@lit',
-         'date': '2020-01-15', 'time': '12:30:00', 'dt': '2020-01-15T12:30:00Z', 'qty': '5kW'}
+         'date': '2020-01-15', 'time': '12:30:00', 'dt': '2020-01-15T12:30:00Z', 'qty': '5kW', 'inf': 'INF'}
 EQ, BELOW, ABOVE = 2, 3, 4
 REL = {EQ: 'equal', BELOW: 'below', ABOVE: 'above'}
-FAM = {'num': 'numeric', 'qty': 'numeric', 'boolT': 'numeric', 'boolF': 'numeric', 'str': 'text',
+FAM = {'num': 'numeric', 'qty': 'numeric', 'inf': 'numeric', 'boolT': 'numeric', 'boolF': 'numeric', 'str': 'text',
        'uri': 'text', 'date': 'day', 'dt': 'day', 'time': 'time', 'ref': 'ref'}
 TAGS = ['a', 'b', 'c']
 CHANGED = 98
@@ -49,6 +49,7 @@ class Binding(object):
                    ABOVE: lambda: dt(2021, 3, 1, 8, 0, 0, tzinfo=utc)},
             'qty': {EQ: lambda: hs.Quantity(5.0, 'kW'), BELOW: lambda: hs.Quantity(3.0, 'kW'),
                     ABOVE: lambda: hs.Quantity(7.5, 'kW')},
+            'inf': {EQ: lambda: float('inf'), BELOW: lambda: 1e300},
         }
 
     def avail(self, kind):
@@ -327,7 +328,9 @@ def diagnose(b, ast, rows):
             except Exception as e:
                 nraise += 1
                 seen.setdefault((type(e).__name__,) + label(rows, r, atom), 0)
-        if nraise == len(rows) and rows:
+        # `any': the atom raises on every row, rows holding a value of the literal's own kind included
+        if nraise == len(rows) and rows and (atom['t'] != 'cmp' or
+                                             any(k[1] in ('equal', 'below', 'above') for k in seen)):
             out.append(dict(base, exc=sorted(set(k[0] for k in seen))[0], valuation='any', hop='any',
                             stage='eval'))
         else:
@@ -336,10 +339,14 @@ def diagnose(b, ast, rows):
     return out
 
 
-def raise_features(b, role, ast, rows, call):
+def raise_features(b, role, ast, rows, call, text):
     fs = diagnose(b, ast, rows) if call['out'] == 'raises' else []
     sh = shape_of(ast)
-    if not fs:
+    if call['out'] == 'parse_error':
+        kinds = sorted(set(a['k'] for a in atoms_of(ast) if a['t'] == 'cmp'))
+        fs = [{'exc': call['exc'], 'literals': '+'.join(kinds) if kinds else 'none',
+               'qty_after_blank': (' ' + SPELL['qty']) in text}]
+    elif not fs:
         fs = [{'exc': call['exc'], 'valuation': 'unknown', 'hop': 'unknown'}]
     return [dict(f, engine='filtersem', role=role, clause=call['out'], shape=sh['shape'],
                  filter_exc=call['exc']) for f in fs]
@@ -430,7 +437,7 @@ def replay_generated(rep, b, cases, viol):
                     continue            # the other limits of the same filter raise alike
                 done.add(clause)
                 stats['raising_cases'] += 1
-                fl = raise_features(b, 'B', case['ast'], rows, c)
+                fl = raise_features(b, 'B', case['ast'], rows, c, text)
             else:
                 fl = [select_features('B', clause, case['ast'], c, case['exp'])]
             detail = {'role': 'B', 'text': text, 'ast': case['ast'], 'rows': rows, 'limit': c['k'],
@@ -553,12 +560,20 @@ def judge(rep, work, traces, tag):
     return rej
 
 
-def selftest(rep, work, evs):
+def selftest(rep, work, evs, have_violations):
     """Binding self-test: corrupt one logged field of an accepted case at a time; TLC must reject
-    exactly the corrupted cases with exactly the clause of the corrupted field."""
+    exactly the corrupted cases with exactly the clause of the corrupted field.  The case is a
+    presence-only filter (every row determined, a law of role A), so that removing or adding one
+    row index is a violation whatever the rows hold."""
     good = next((e for e in evs if e['calls'][0]['out'] == 'ok' and len(e['calls'][0]['sel']) >= 2
-                 and len(e['calls'][0]['sel']) < len(e['rows'])), None)
+                 and len(e['calls'][0]['sel']) < len(e['rows'])
+                 and all(a['t'] != 'cmp' for a in atoms_of(e['ast']))), None)
     if good is None:
+        if have_violations:
+            # the implementation is broken so broadly that no suitable execution was accepted; the
+            # violations are reported, the demonstration of the binding is skipped (and says so)
+            rep.extra['binding_selftest'] = {'ok': None, 'skipped': 'no accepted presence-only case to corrupt'}
+            return
         raise MachineryError('binding self-test: no accepted case with >= 2 selected rows to corrupt')
     good = json.loads(json.dumps(good))
     good['calls'] = good['calls'][:1]
@@ -613,10 +628,15 @@ def observe_kindred(b):
 def report_violations(rep, viol):
     """First one example of every class (so that each gets a replay file), then the rest."""
     def coarse(f):
-        return (f.get('role'), f.get('clause'), f.get('exc'), f.get('stage'), f.get('hop') == 'marker',
-                f.get('literal') if f.get('valuation') == 'any' else f.get('valuation') if f.get('clause') == 'raises' else None,
-                f.get('op_class') if f.get('clause') == 'raises' else None,
-                f.get('chain') if f.get('clause') != 'raises' else None)
+        if f.get('clause') == 'raises':
+            return ('raises', f.get('exc'), f.get('stage'),
+                    'deref_through_non_ref' if f.get('hop') in ('marker', 'value') else
+                    'literal_' + str(f.get('literal')) if f.get('valuation') == 'any' or f.get('literal') == 'inf'
+                    else 'valuation_' + str(f.get('valuation')), f.get('op_class'))
+        if f.get('clause') == 'parse_error':
+            return ('parse_error', f.get('exc'), 'qty_after_blank' if f.get('qty_after_blank') else f.get('literals'))
+        return (f.get('clause'), 'chain' if f.get('chain') else 'no_chain',
+                'literals_inf' if 'inf' in str(f.get('literals')) else '', 'limit' if f.get('limit') else '')
     seen, first, rest = set(), [], []
     classes = {}
     for f, d in viol:
@@ -624,7 +644,7 @@ def report_violations(rep, viol):
         classes[k] = classes.get(k, 0) + 1
         (rest if k in seen else first).append((f, d))
         seen.add(k)
-    rep.max_report = max(rep.max_report, min(len(first), 16))
+    rep.max_report = max(rep.max_report, min(len(first), 24))
     for f, d in first + rest:
         rep.violation(f, d)
     rep.extra['violation_classes'] = [{'class': [str(x) for x in k], 'count': n} for k, n in
@@ -644,7 +664,7 @@ def run(tier):
         rep.tlc('model-check', r)
         if r.invariant_violated or not r.completed:
             raise MachineryError('FilterSem.tla violates its own law %s\n%s' % (r.invariant_violated, r.out[-1500:]))
-        if r.initial < (10000 if quick else 100000):
+        if r.initial < (10000 if quick else 80000):
             raise MachineryError('role A instance smaller than expected: %d <<AST, style>> pairs' % r.initial)
         rep.extra['roundtrip_ast_style_pairs'] = r.initial
         # (B) generated cases
@@ -694,7 +714,7 @@ def run(tier):
                     if clause in done:
                         continue
                     done.add(clause)
-                    fl = raise_features(b, 'C', ev['ast'], ev['rows'], c)
+                    fl = raise_features(b, 'C', ev['ast'], ev['rows'], c, spell(ev['toks']))
                 else:
                     fl = [select_features('C', clause, ev['ast'], c)]
                 detail = {'role': 'C', 'text': spell(ev['toks']), 'ast': ev['ast'], 'toks': ev['toks'],
@@ -705,24 +725,36 @@ def run(tier):
                 for f in fl:
                     viol.append((f, detail))
         accepted = [e for (ti, tr) in enumerate(traces, 1) for (li, e) in enumerate(tr, 1) if (ti, li) not in rej]
-        if accepted:
-            selftest(rep, work, accepted)
-        else:
-            # every random case was rejected (unpatched tree with very broad defects): fall back to a
-            # generated presence filter, logged in the same format
-            c0 = {'ast': {'t': 'has', 'p': ['a']}, 'toks': ['a'], 'limits': [0],
-                  'rows': [[0, 0, 0, 0, 0, 0, 0], [0, 0, 1, 0, 0, 0, 0], [0, 0, 1, 0, 1, 0, 0], [0, 0, 0, 0, 1, 0, 0]]}
-            selftest(rep, work, run_random(b, [c0]))
+        # two fixed presence filters join the candidates (random filters are rarely presence-only)
+        fixed = [{'ast': {'t': 'has', 'p': ['a']}, 'toks': ['a'], 'limits': [0],
+                  'rows': [[0, 0, 0, 0, 0, 0, 0], [0, 0, 1, 0, 0, 0, 0], [0, 0, 1, 0, 1, 0, 0], [0, 0, 0, 0, 1, 0, 0]]},
+                 {'ast': {'t': 'or', 'xs': [{'t': 'missing', 'p': ['b']}, {'t': 'has', 'p': ['c']}]},
+                  'toks': ['not', ' ', 'b', ' ', 'or', ' ', 'c'], 'limits': [0],
+                  'rows': [[0, 0, 0, 0, 1, 0, 0], [0, 0, 1, 0, 0, 0, 0], [0, 0, 1, 0, 1, 0, 1], [0, 0, 0, 0, 1, 0, 0]]}]
+        fevs = run_random(b, fixed)
+        frej = judge(rep, work, [fevs], 'fixed')
+        for (t, l), cl in sorted(frej.items()):
+            for j, clause in sorted(cl):
+                c = fevs[l - 1]['calls'][j - 1]
+                viol.append((select_features('C', clause, fevs[l - 1]['ast'], c) if c['out'] == 'ok' else
+                             raise_features(b, 'C', fevs[l - 1]['ast'], fevs[l - 1]['rows'], c,
+                                            spell(fevs[l - 1]['toks']))[0],
+                             {'role': 'C', 'text': spell(fevs[l - 1]['toks']), 'ast': fevs[l - 1]['ast'],
+                              'toks': fevs[l - 1]['toks'], 'rows': fevs[l - 1]['rows'], 'limits': [0],
+                              'limit': 0, 'clause': clause,
+                              'got': {'out': c['out'], 'exc': c.get('exc', ''), 'selected': c['sel']}}))
+        accepted += [e for li, e in enumerate(fevs, 1) if (1, li) not in frej]
+        selftest(rep, work, accepted, bool(viol))
         rep.extra['kindred_kind_observations_not_judged'] = observe_kindred(b)
         report_violations(rep, viol)
     rep.rule = ('generated: every <<filter AST, style>> of the bounded generator (all ASTs of size <= %d over '
-                'paths a, b, c, a->b x 6 operators x 10 literal kinds, and/or chains up to 4 operands and mixed '
+                'paths a, b, c, a->b x 6 operators x 11 literal kinds, and/or chains up to 4 operands and mixed '
                 'and/or/parenthesis shapes) on a grid realising the full product of the valuations its atoms '
                 'distinguish, distinct by filter text; random: seeded filters of size 3..14 on random grids, '
                 'judged case by case by Trace_FilterSem' % (2 if quick else 3))
     rep.exhaustive = True
     rep.assumptions = [
-        'one literal per kind (5, "m", true, false, `m`, @lit, 2020-01-15, 12:30:00, 2020-01-15T12:30:00Z, 5kW); '
+        'one literal per kind (5, "m", true, false, `m`, @lit, 2020-01-15, 12:30:00, 2020-01-15T12:30:00Z, 5kW, INF); '
         'row values are that literal, one value before and one after it in the kind\'s order',
         'row ids are strings idN and references Ref("idN") (the usage the repository tests establish); ids are unique',
         'no row maps a tag to None (unconstrained by the property)',
